@@ -439,6 +439,9 @@ def redirect(tokeniser: 'Tokeniser') -> tuple[IP, ExtendedCommunities]:
         asn: int = int(prefix)
         nn_int: int = int(suffix)
 
+        if nn_int < 0:
+            raise ValueError('Local administrator field can not be negative {}'.format(nn_int))
+
         if not ASN4.validate(asn):
             raise ValueError(f'asn is invalid, must be 0 to {ASN.MAX_4BYTE} (32 bits): {asn}')
 
